@@ -54,7 +54,7 @@ def pairs():
     from skchange.anomaly_detectors import CAPA, MVCAPA, CircularBinarySegmentation, StatThresholdAnomaliser
     from skchange.change_detectors import PELT, MovingWindow, SeededBinarySegmentation
     from skchange.change_scores import CUSUM
-    from skchange.costs import L2Cost
+    from skchange.costs import GaussianCovCost, L2Cost
 
     return [
         dict(name="PELT+MovingWindow/L2Cost", tunes="none", shareable=True, scorer=lambda: L2Cost(), cuts=[[0, 4], [2, 7]],
@@ -78,6 +78,11 @@ def pairs():
              d1=(CircularBinarySegmentation, "anomaly_score", dict(min_segment_length=1, max_interval_length=6, threshold_scale=None, level=0.3),
                  dict(min_segment_length=2, max_interval_length=8, threshold_scale=None, level=0.2)),
              d2=(PELT, "cost", dict(min_segment_length=1, penalty_scale=0.2), dict(min_segment_length=3, penalty_scale=0.5))),
+        dict(name="CAPA+PELT/GaussianCovCost((0.5,1.5))", tunes="none", shareable=True, scorer=lambda: GaussianCovCost(param=(0.5, 1.5)),
+             cuts=[[0, 4], [2, 9]],       # fixed NON-ZERO mean: a kernel that centres in place would corrupt data and later calls
+             d1=(CAPA, "collective_saving", dict(min_segment_length=3, max_segment_length=8, collective_penalty_scale=0.3, point_penalty_scale=0.5),
+                 dict(min_segment_length=4, max_segment_length=20, collective_penalty_scale=1.0, point_penalty_scale=1.0)),
+             d2=(PELT, "cost", dict(min_segment_length=3, penalty_scale=0.2), dict(min_segment_length=4, penalty_scale=0.5))),
         dict(name="Anomaliser(PELT)+PELT", tunes="none", shareable=False, scorer=lambda: L2Cost(), cuts=[[0, 4], [2, 9]],
              d1=("anomaliser", "cost", dict(stat_lower=-1.0, stat_upper=1.0), dict(stat_lower=-3.0, stat_upper=2.0)),
              d2=(PELT, "cost", dict(min_segment_length=1, penalty_scale=0.2), dict(min_segment_length=3, penalty_scale=0.5))),
